@@ -4,6 +4,7 @@ C19 -- Watch coverage and continuity under reconnects, 410s, pauses and cluster 
 from __future__ import annotations
 
 import fnmatch
+import re
 from typing import Any, Optional
 
 from kopfsim import runner
@@ -27,6 +28,7 @@ ASSUMPTIONS = common.BASE_ASSUMPTIONS + [
     'coverage is judged at settled instants (no namespace/CRD change, stream fault or pause within the last 10 s)',
 ]
 SETTLE = 10.0
+_URL = re.compile(r'^/apis/[^/]+/[^/]+/(?:namespaces/(?P<ns>[^/]+)/)?(?P<plural>[a-z]+)(?:/(?P<name>[^/]+))?$')
 REDUCIBLE = ['actions', 'net.rules', 'objects']
 
 
@@ -257,7 +259,14 @@ def oracle(run: runner.Run, oc: Outcome) -> None:
     for e in trace:
         if e[2] == 'req' and e[5] == 'GET':
             r = by_rid.get(e[3])
-            if r is None or r.attrs.get('kind') not in served_kinds or r.attrs.get('name') is not None:
+            if r is None:
+                continue
+            if r.attrs.get('kind') is None:
+                # the kind was not installed at the instant of sending (a CRD being re-created): read the URL itself
+                m_ = _URL.match(r.path)
+                if m_ and m_.group('name') is None:
+                    r.attrs.update(kind=m_.group('plural'), ns=m_.group('ns'), name=None)
+            if r.attrs.get('kind') not in served_kinds or r.attrs.get('name') is not None:
                 continue
             key = (r.session.actor, r.attrs['kind'], r.attrs.get('ns'))
             lineages.setdefault(key, []).append(('watch' if r.attrs['watch'] else 'list', e[0], e[1], e[8], r))
